@@ -1,4 +1,5 @@
 import TcheranVerif.Proofs.MagicCert
+import TcheranVerif.Proofs.Sweep.S07  -- only to bound how many parts are checked at once (≈8 GB each)
 /-! C07 sweep, part 11: rook squares [40, 47] — decided by the kernel alone -/
 namespace Tcheran.Sweep
 
